@@ -6,7 +6,7 @@ import ast
 import builtins as _pybuiltins
 from typing import Any
 
-from .c02_exec import _MISSING, LIBRARY_OBJECT_TYPES, PY_EXC, Interp as _Interp, _hashable
+from .c02_exec import _MISSING, LIBRARY_OBJECT_TYPES, PURE_LIBS, PY_EXC, Interp as _Interp, _hashable
 from .c02_sym import (
     MUTATORS,
     STR_METHODS,
@@ -26,6 +26,7 @@ from .c02_sym import (
     Inst,
     Partial,
     Raised,
+    Seq,
     Sym,
     Term,
     Unsupported,
@@ -56,6 +57,8 @@ class Interp(_Interp):
                 return t()
             if isinstance(args[0], Sym) and args[0].kind == "set":
                 return args[0]  # a copy of the symbolic set answers membership tests like the set itself
+            if t in (list, tuple) and isinstance(args[0], Seq) and not args[0].concrete:
+                return Seq(list(args[0].parts))
             kind, items = self.iterate(args[0], node, frame)
             if kind != "concrete":
                 return App(t.__name__, (items,))
@@ -130,6 +133,23 @@ class Interp(_Interp):
                 out.append(x)
                 todo.extend(child_nodes(x))
             return out
+        root = dotted.split(".")[0]
+        if root in PURE_LIBS and dotted not in ("functools.partial", "functools.reduce", "itertools.chain", "itertools.chain.from_iterable", "itertools.accumulate", "itertools.pairwise") or (root in PURE_LIBS and all(is_native(a) for a in args) and not kwargs and dotted.startswith("itertools.")):
+            if all(is_native(a) or type(a).__module__ in PURE_LIBS for a in [*args, *kwargs.values()]) and not any(isinstance(a, (list, dict, set)) for a in args):
+                import importlib
+
+                try:
+                    f: Any = importlib.import_module(root)
+                    for part in dotted.split(".")[1:]:
+                        f = getattr(f, part)
+                except (ImportError, AttributeError):
+                    f = None
+                if callable(f):
+                    try:
+                        r = f(*args, **kwargs)
+                    except Exception as ex:  # noqa: BLE001
+                        raise Raised(None, type(ex).__name__)
+                    return list(r) if type(r).__name__ in ("callable_iterator", "accumulate", "chain", "islice", "pairwise", "product", "permutations", "combinations") else r
         if dotted == "functools.partial":
             return Partial(args[0], tuple(args[1:]), dict(kwargs))
         if dotted in ("functools.reduce",):
@@ -216,6 +236,8 @@ class Interp(_Interp):
             return None
         if name == "len":
             v = args[0]
+            if isinstance(v, Seq):
+                return len(v.items()) if v.concrete else App("len", (_h(v),))
             if isinstance(v, (list, tuple, dict, set, frozenset, str)):
                 return len(v)
             if isinstance(v, Term):
@@ -289,6 +311,8 @@ class Interp(_Interp):
                 return list(zip(*[i for _, i in its]))
             return App("zip", tuple(i if k != "concrete" else _h(i) for k, i in its))
         if name == "reversed":
+            if isinstance(args[0], Seq) and not args[0].concrete:
+                return Seq([p if p[0] == "item" else ("rep", list(reversed(p[1])), App("reversed", (p[2],)), p[3]) for p in reversed(args[0].parts)])
             kind, items = self.iterate(args[0], node, frame)
             if kind != "concrete":
                 return App("reversed", (items,))
@@ -373,6 +397,14 @@ class Interp(_Interp):
         fi = frame.fi if frame else None
         if isinstance(recv, ExtObj):
             return self.ext_method(recv, name, args, kwargs, node, frame)
+        if type(recv).__module__ in PURE_LIBS and not isinstance(recv, (Term, Inst, ANode)):
+            if all(is_native(a) for a in [*args, *kwargs.values()]):
+                try:
+                    r = getattr(recv, name)(*args, **kwargs)
+                except Exception as ex:  # noqa: BLE001
+                    raise Raised(None, type(ex).__name__)
+                return list(r) if type(r).__name__ == "callable_iterator" else r
+            return App(f"meth:{name}", (show(recv), *[_h(a) for a in args]))
         if isinstance(recv, ExtView):
             return self.view_method(recv, name, args, kwargs, node, frame)
         if isinstance(recv, Inst) and name.startswith("NodeVisitor."):
@@ -651,11 +683,11 @@ class Interp(_Interp):
                         if not isinstance(x, (tuple, list)) or len(x) < 2:
                             raise Unsupported("add_edges_from with an element that is not a pair", node, fi)
                         extra = x[2] if len(x) > 2 and isinstance(x[2], dict) else {}
-                        self.effects.append(Effect("ext", o, "add_edge", (x[0], x[1]), {**kwargs, **extra}, self.in_loop > 0, dict(self.path), v, where))
+                        self.effects.append(Effect("ext", o, "add_edge", (x[0], x[1]), {**kwargs, **extra}, self.in_loop > 0, dict(self.path), v, where, len(self.decisions)))
                 o.version += 1
                 return None
         if name in MUTATORS:
-            self.effects.append(Effect("ext", o, name, tuple(args), dict(kwargs), self.in_loop > 0, dict(self.path), v, where))
+            self.effects.append(Effect("ext", o, name, tuple(args), dict(kwargs), self.in_loop > 0, dict(self.path), v, where, len(self.decisions)))
             o.version += 1
             return None
         if name in ("has_node", "__contains__"):
